@@ -63,6 +63,9 @@ type c14Runner struct {
 
 func (cr *c14Runner) syncEntries() {
 	for h, s := range cr.e.p.state.vaaSignatures {
+		if s == nil {
+			continue // an entry the code under test left empty: it has to cope with that itself
+		}
 		if _, ok := cr.ents[h]; !ok {
 			cr.ents[h] = &entryModel{firstV: cr.now, lastRetryV: -1}
 			// keep every age off the whole-second thresholds: entries are born 0.5 s "ago"
@@ -146,6 +149,9 @@ func runC14(c c14Case) (*vh.Violation, vh.Outcome) {
 		}
 		pre := map[string]cls{}
 		for h, s := range e.p.state.vaaSignatures {
+			if s == nil {
+				continue // an entry the code under test left empty: it has to cope with that itself
+			}
 			k := "parked"
 			switch {
 			case s.submitted:
